@@ -39,6 +39,7 @@ NOTES = {
     "C15e": "first evaluation missed it (partition counts 1,2,3,4,8 only, and the server's formula was copied, not called); caught after the routing sub-run draws counts up to 1024 and asks the real NamespaceMgr",
     "C19f": "first evaluation missed it; caught after deliveries addressed to a raft group that is not loaded on the node were added (they must not be acknowledged)",
     "C04f": "first evaluation missed it; caught by the pending-table state machine after it modelled the batch semantics",
+    "C16e": "first evaluation missed it: C16 drove the stream codecs only, not the stream writer in front of them (stream.go is among the property's anchors). Caught after the sub-run stream was added: the real streamWriter over an in-memory connection with a backlog around its flush-batch limit queued before the connection is attached (hook rafthttp.VerifStreamWriterRun)",
     "C15a": "first evaluation missed it; caught after the routing sub-run got a namespace life cycle step (an earlier creation of the same name with another partition count that fails while opening its store)",
     "C16b": "first evaluation missed it; caught after truncation cuts at every field boundary of large messages were added",
     "C19b": "first evaluation missed it (only the receiver was driven); caught by the new sender sub-run: the real logSyncerSM + RemoteLogSender over loopback gRPC in front of the real receiver",
